@@ -3,6 +3,23 @@
 _PENDING = 'check not built yet in this session (work in progress, see DESIGN.md §9)'
 
 PROPS = {
+    'C01': dict(
+        level='proof',
+        text='encode_message, Message.bytes/bin/__len__ are proved equal to an independent MIDI 1.0 spec encoding for all 18 '
+             'types with every attribute symbolic over its whole documented range (sysex payload: a sequence of any length); '
+             'the spec encoding is proved well-formed; the composition from_bytes(bytes()/bin()) == m is proved by executing '
+             'the real encoder and decoder back to back on a symbolic valid message. hex()/from_hex() is a bounded stand-in.',
+        note='trusted: pyvc engine, z3/cvc5, hand-written MIDI 1.0 spec (contracts/spec_midi.py); check_data used via its proved '
+             'contract; hex()/from_hex() clause only bounded (string formatting outside the encoding)',
+        clauses=[
+            ['bytes()/bin()/encode_message == spec_encode(m); status byte fixed by type and channel; data bytes < 0x80', 'P'],
+            ['len(m) == len(bytes())', 'P'],
+            ['from_bytes(m.bytes()|m.bin(), time=m.time) == m', 'P'],
+            ['from_hex(m.hex(sep)) == m', 'B'],
+        ],
+        assumptions=[],
+        trusted_base=[],
+    ),
     'C02': dict(
         level='proof',
         text='Message.from_bytes / decode_message are verified against the MIDI 1.0 well-formedness predicate for integer '
@@ -23,5 +40,5 @@ PROPS = {
 }
 
 NOT_APPLICABLE = {pid: _PENDING for pid in
-                  ['C01', 'C03', 'C04', 'C05', 'C06', 'C07', 'C08', 'C09', 'C10', 'C11', 'C12', 'C13', 'C14', 'C15',
+                  ['C03', 'C04', 'C05', 'C06', 'C07', 'C08', 'C09', 'C10', 'C11', 'C12', 'C13', 'C14', 'C15',
                    'C16', 'C17', 'C18', 'C19', 'C20']}
